@@ -374,3 +374,73 @@ def mask_times(text):
             line = line.split(": ")[0] + ": <t>"
         out.append(line)
     return "\n".join(out)
+
+
+def run_interleaved(specs, order, env=None):
+    """Several Solver objects alive in one process: ALL are constructed first
+    (in list order), then solved and read in `order` (a permutation of
+    indices).  specs: list of (text, argv_tail, getters).  Returns one
+    observation per spec (same shape as run_solver's)."""
+    from matchingproblems.solver.solver import Solver
+    ctx = fakecbc.CTX
+    ctx.reset()
+    if not _INSTALLED:
+        install_all()
+    fakecbc.install()
+    clk = vclock.VirtualClock()
+    vclock.install(clk)
+    ctx.env = env
+    ctx.clock = clk
+    ctx.read_log = None
+    obs_list = []
+    solvers = []
+    try:
+        for i, (text, tail, getters) in enumerate(specs):
+            path = inst_file(text, "inter%d.txt" % i)
+            obs = {"argv": list(tail), "exc": None, "outputs": [], "solves": []}
+            S = None
+            try:
+                with _Quiet():
+                    S = Solver(["-f", path] + list(tail))
+            except SystemExit as e:
+                obs["exc"] = {"stage": "init", "fingerprint": "SystemExit(%r)" % (e.code,),
+                              "type": "SystemExit", "message": str(e.code)}
+            except Exception as e:        # noqa
+                obs["exc"] = exc_record(e, "init")
+            solvers.append(S)
+            obs_list.append(obs)
+        for i in order:
+            S = solvers[i]
+            obs = obs_list[i]
+            if S is None:
+                continue
+            ctx.solver_obj = S
+            before = len(ctx.solves)
+            for op in ["solve"] + list(specs[i][2]):
+                try:
+                    if op == "solve":
+                        S.solve()
+                        obs["outputs"].append(("solve", None))
+                    elif op == "short":
+                        obs["outputs"].append(("short", S.get_results_short()))
+                    elif op == "long":
+                        obs["outputs"].append(("long", S.get_results_long()))
+                    elif op == "results":
+                        obs["outputs"].append(("results", S.get_results()))
+                    elif op == "debug":
+                        obs["outputs"].append(("debug", S.get_debug()))
+                except HarnessError:
+                    raise
+                except Exception as e:    # noqa
+                    rec = exc_record(e, op)
+                    obs["outputs"].append((op, rec))
+                    if obs["exc"] is None:
+                        obs["exc"] = rec
+                    if op == "solve":
+                        wipe_tmpfiles()
+                        break
+            obs["solves"] = ctx.solves[before:]
+            obs["solver"] = None
+    finally:
+        vclock.uninstall()
+    return obs_list
